@@ -531,3 +531,134 @@ func ReturnValues(r *ssa.Return) []ssa.Value {
 	}
 	return out
 }
+
+// Cluster returns fn together with the module functions of the same package it
+// calls statically, transitively up to depth levels (helpers a block of fn may
+// have been extracted into). fn is first; the rest is in discovery order.
+func Cluster(fn *ssa.Function, depth int) []*ssa.Function {
+	out := []*ssa.Function{fn}
+	seen := map[*ssa.Function]bool{fn: true}
+	frontier := []*ssa.Function{fn}
+	for d := 0; d < depth && len(frontier) > 0; d++ {
+		var next []*ssa.Function
+		for _, f := range frontier {
+			Instrs(f, true, func(in ssa.Instruction) {
+				call, ok := in.(ssa.CallInstruction)
+				if !ok {
+					return
+				}
+				cal := call.Common().StaticCallee()
+				if cal == nil || seen[cal] || cal.Blocks == nil || !InModule(cal) {
+					return
+				}
+				if cal.Pkg == nil || fn.Pkg == nil || cal.Pkg != fn.Pkg {
+					if cal.Parent() == nil {
+						return
+					}
+				}
+				seen[cal] = true
+				out = append(out, cal)
+				next = append(next, cal)
+			})
+		}
+		frontier = next
+	}
+	return out
+}
+
+// DominatingIfs returns the conditional branches that dominate instruction in
+// within its own function and, when that function is a helper of root (a member
+// of cluster called from exactly one site in the cluster), those dominating the
+// call site, transitively up to root. ok is false when a helper has no unique
+// call site in the cluster.
+func DominatingIfs(cluster []*ssa.Function, in ssa.Instruction) (ifs []*ssa.If, ok bool) {
+	inCluster := map[*ssa.Function]bool{}
+	for _, f := range cluster {
+		inCluster[f] = true
+	}
+	cur := in
+	for steps := 0; steps < 6; steps++ {
+		f := cur.Parent()
+		blk := cur.Block()
+		for _, b := range f.Blocks {
+			if len(b.Instrs) == 0 || b == blk || !b.Dominates(blk) {
+				continue
+			}
+			if ifi, isIf := b.Instrs[len(b.Instrs)-1].(*ssa.If); isIf {
+				ifs = append(ifs, ifi)
+			}
+		}
+		if len(cluster) == 0 || f == cluster[0] {
+			return ifs, true
+		}
+		// unique call site of f in the cluster
+		var site ssa.Instruction
+		n := 0
+		for _, g := range cluster {
+			Instrs(g, true, func(i2 ssa.Instruction) {
+				if call, isCall := i2.(ssa.CallInstruction); isCall && call.Common().StaticCallee() == f {
+					site = i2
+					n++
+				}
+			})
+		}
+		if n != 1 {
+			return ifs, false
+		}
+		cur = site
+	}
+	return ifs, false
+}
+
+// SliceInter is Slice extended across the helpers of a cluster: when the slice
+// reaches a parameter of a cluster function, it continues at the corresponding
+// argument of every static call site of that function inside the cluster.
+func SliceInter(v ssa.Value, through func(c *ssa.Call) bool, cluster []*ssa.Function) map[ssa.Value]bool {
+	out := map[ssa.Value]bool{}
+	inCluster := map[*ssa.Function]bool{}
+	for _, f := range cluster {
+		inCluster[f] = true
+	}
+	var sites map[*ssa.Function][]ssa.CallInstruction
+	doneParam := map[*ssa.Parameter]bool{}
+	work := []ssa.Value{v}
+	for len(work) > 0 {
+		w := work[len(work)-1]
+		work = work[:len(work)-1]
+		for x := range Slice(w, through) {
+			if out[x] {
+				continue
+			}
+			out[x] = true
+			par, ok := x.(*ssa.Parameter)
+			if !ok || doneParam[par] || !inCluster[par.Parent()] {
+				continue
+			}
+			doneParam[par] = true
+			if sites == nil {
+				sites = map[*ssa.Function][]ssa.CallInstruction{}
+				for _, g := range cluster {
+					Instrs(g, true, func(in ssa.Instruction) {
+						if call, ok := in.(ssa.CallInstruction); ok {
+							if cal := call.Common().StaticCallee(); cal != nil && inCluster[cal] {
+								sites[cal] = append(sites[cal], call)
+							}
+						}
+					})
+				}
+			}
+			idx := -1
+			for i, p := range par.Parent().Params {
+				if p == par {
+					idx = i
+				}
+			}
+			for _, call := range sites[par.Parent()] {
+				if idx >= 0 && idx < len(call.Common().Args) {
+					work = append(work, call.Common().Args[idx])
+				}
+			}
+		}
+	}
+	return out
+}
